@@ -6,9 +6,17 @@
     retrieval in flight returns), [Send], [Tick] (a Done / closed-feed case of a select fires), [Consume], [Cancel],
     [StopService], [FeedClose].  A header is (height, ids of the namespace's blobs at that height) and the response owed for
     it is that same pair.  [step true] is the code with fix-c20-1, [step false] the code before it.
-    Ghost fields: [s_deliv] headers received from the feed, [s_emit] responses sent, [s_cons] responses read. *)
+    Ghost fields: [s_deliv] headers received from the feed, [s_emit] responses sent, [s_cons] responses read.
+
+    Model of the feed (Blob/Feed.v): the forwarder goroutine of Service.Subscribe in nodebuilder/header/service.go, which
+    nodebuilder/blob wires into the blob service: [FNext] (subscription.NextHeader returns the oldest ready item of the
+    source: a header or an error), [FRecv] (the blocking send on the unbuffered channel meets a receive), [FTick] (the
+    cancelled context is noticed), [FPublish h] / [FPublishErr] (the source makes a header / an error ready), [FCancel].
+    Ghost fields: [f_pub] headers the source made ready, [f_taken] headers NextHeader handed out, [f_sent] headers sent.
+    Composition [cstep]: both goroutines under the subscriber's context; [Handoff] = FRecv + Header h, possible only
+    while the producer is in its outer select; the forwarder's deferred close is the producer's FeedClose. *)
 From Coq Require Import List ZArith.
-From CN Require Import Base.Lts Blob.Subscribe Blob.SubscribeProofs.
+From CN Require Import Base.Lts Blob.Subscribe Blob.SubscribeProofs Blob.Feed Blob.FeedProofs.
 Import ListNotations.
 
 (** 1. EVERY BLOCK ONCE, IN ORDER, WITH THE RIGHT BLOBS.  For every event sequence (every header sequence, failure pattern,
@@ -90,3 +98,102 @@ Theorem C20_nonvacuous :
    is_closed (run (step false) init [Header (ex_h 1); StopService; GetAllFail; GetAllFail; GetAllFail]) = false).
 Proof. exact (conj ex_cancel (conj ex_overflow ex_stop)). Qed.
 Print Assumptions C20_nonvacuous.
+
+(** 4. THE HEADER FEED (sections 1-3 take the headers as they arrive at the producer; this section is about how they get
+    there).  For every event sequence of the forwarder - every pace of the source and of the reader, cancel or source error
+    anywhere: what it has sent is a prefix of what NextHeader gave it, in order, nothing dropped, nothing repeated; it has at
+    most one header in hand (none while it waits in NextHeader); and every header the source made ready is sent, in hand, or
+    still ready in the source. *)
+Theorem C20_feed_prefix_inv : forall (es : list fevent),
+  let f := run fstep finit es in
+  exists hand,
+    f_taken f = f_sent f ++ hand /\ (length hand <= 1)%nat /\
+    (f_pc f = FWait -> hand = []) /\ (forall h, f_pc f = FHold h -> hand = [h]) /\
+    f_pub f = f_sent f ++ hand ++ hdrs (f_src f).
+Proof. exact feed_prefix_inv. Qed.
+Print Assumptions C20_feed_prefix_inv.
+
+Theorem C20_feed_lossless_while_open : forall (es : list fevent),
+  let f := run fstep finit es in
+  is_fclosed f = false -> f_pub f = f_sent f ++ in_hand f ++ hdrs (f_src f).
+Proof. exact feed_lossless_while_open. Qed.
+Print Assumptions C20_feed_lossless_while_open.
+
+(** the feed closes only when its context is cancelled or the source subscription returns an error; closed is final *)
+Theorem C20_feed_closes_only_when : forall f e,
+  is_fclosed f = false -> is_fclosed (fstep f e) = true ->
+  f_cancel f = true \/ (e = FNext /\ exists r, f_src f = SErr :: r).
+Proof. exact feed_closes_only_when. Qed.
+Print Assumptions C20_feed_closes_only_when.
+
+Theorem C20_feed_closed_final : forall f e,
+  is_fclosed f = true -> is_fclosed (fstep f e) = true /\ f_sent (fstep f e) = f_sent f.
+Proof. exact feed_closed_final. Qed.
+Print Assumptions C20_feed_closed_final.
+
+(** 5. END TO END: the real feed wired into the subscription.  The producer/consumer part of every run of the composition
+    is a run of the subscription LTS, so sections 1-3 hold for it as they stand. *)
+Theorem C20_e2e_projection : forall fixed (es : list cevent),
+  exists bes, c_blob (run (cstep fixed) cinit es) = run (step fixed) init bes.
+Proof. exact e2e_projection. Qed.
+Print Assumptions C20_e2e_projection.
+
+(** EVERY BLOCK OF THE SOURCE ONCE, IN ORDER (prefix_inv lifted through the feed): for every event sequence of the
+    composition the responses sent are the responses owed for the headers the SOURCE made ready, in source order; every
+    header of the source is answered, or is the one the producer is working on, or the one in the forwarder's hand, or is
+    still ready in the source, in this order - no height in between is skipped, repeated or reordered, however long a
+    retrieval stalls and however far the source runs ahead. *)
+Theorem C20_e2e_prefix_inv : forall fixed (es : list cevent),
+  let c := run (cstep fixed) cinit es in
+  let f := c_feed c in
+  let b := c_blob c in
+  exists work hand,
+    f_pub f = s_emit b ++ work ++ hand ++ hdrs (f_src f) /\
+    f_taken f = s_emit b ++ work ++ hand /\
+    s_deliv b = s_emit b ++ work /\
+    (length work <= 1)%nat /\ (length hand <= 1)%nat /\
+    (s_pc b = Idle -> work = []) /\ (forall h, s_pc b = Retry h \/ s_pc b = Sending h -> work = [h]) /\
+    (f_pc f = FWait -> hand = []) /\ (forall h, f_pc f = FHold h -> hand = [h]) /\
+    s_emit b = s_cons b ++ s_queue b /\ (length (s_queue b) <= cap)%nat.
+Proof. exact e2e_prefix_inv. Qed.
+Print Assumptions C20_e2e_prefix_inv.
+
+Theorem C20_e2e_all_answered : forall fixed (es : list cevent),
+  let c := run (cstep fixed) cinit es in
+  s_pc (c_blob c) = Idle -> f_pc (c_feed c) = FWait -> f_src (c_feed c) = [] ->
+  s_emit (c_blob c) = f_pub (c_feed c).
+Proof. exact e2e_all_answered. Qed.
+Print Assumptions C20_e2e_all_answered.
+
+(** the stream of the composition closes only when the subscriber cancelled, the service stopped, the source subscription
+    returned an error, or a header was handed over while 16 responses were unread *)
+Theorem C20_e2e_closes_only_when : forall fixed (es : list cevent) e,
+  let c := run (cstep fixed) cinit es in
+  is_closed (c_blob c) = false -> is_closed (c_blob (cstep fixed c e)) = true ->
+  s_cancel (c_blob c) = true \/ s_stop (c_blob c) = true \/ f_err (c_feed c) = true \/
+  (length (s_queue (c_blob c)) = cap /\ e = Handoff).
+Proof. exact e2e_closes_only_when. Qed.
+Print Assumptions C20_e2e_closes_only_when.
+
+(** non-vacuity: a reader 24 headers behind the feed receives all 25 in order; the long outage (a retrieval failing 30 times
+    while the chain produces 24 more headers: producer stuck on height 1, forwarder holding height 2, 3..25 waiting in the
+    source) after which all 25 heights are answered in order; a source error during a failing retrieval; a cancel *)
+Theorem C20_feed_nonvacuous :
+  (let f := run fstep finit (map FPublish (fhs 1 25) ++ [FNext]) in
+   f_sent f = [] /\ f_taken f = [fh 1] /\ length (hdrs (f_src f)) = 24%nat /\
+   f_sent (run fstep f (flat_map (fun _ => [FRecv; FNext]) (seq 1 25))) = fhs 1 25) /\
+  (let c := run (cstep true) cinit
+              ([Publish (fh 1); Next; Handoff] ++ map Publish (fhs 2 24) ++ [Next] ++ repeat (B GetAllFail) 30) in
+   s_pc (c_blob c) = Retry (fh 1) /\ f_pc (c_feed c) = FHold (fh 2) /\ hdrs (f_src (c_feed c)) = fhs 3 23 /\
+   s_emit (c_blob c) = [] /\
+   let c' := run (cstep true) c (flat_map (fun _ => [B GetAllOk; B Send; B Consume; Handoff; Next]) (seq 1 25)) in
+   s_emit (c_blob c') = fhs 1 25 /\ s_cons (c_blob c') = fhs 1 25 /\ f_pub (c_feed c') = fhs 1 25 /\
+   is_closed (c_blob c') = false /\ is_fclosed (c_feed c') = false) /\
+  ((let c := run (cstep true) cinit [Publish (fh 1); Next; Handoff; PublishErr; Next; B GetAllFail; B GetAllOk; B Send; B Tick] in
+    s_emit (c_blob c) = [fh 1] /\ is_closed (c_blob c) = true /\ is_fclosed (c_feed c) = true /\ f_err (c_feed c) = true /\
+    s_cancel (c_blob c) = false) /\
+   (let c := run (cstep true) cinit [Publish (fh 1); Next; Handoff; Publish (fh 2); Next; CancelCtx; FeedTick; B GetAllOk] in
+    s_emit (c_blob c) = [] /\ is_closed (c_blob c) = true /\ is_fclosed (c_feed c) = true /\ f_err (c_feed c) = false /\
+    f_taken (c_feed c) = [fh 1; fh 2])).
+Proof. exact (conj ex_feed_slow_reader (conj ex_long_outage ex_source_error_and_cancel)). Qed.
+Print Assumptions C20_feed_nonvacuous.
